@@ -188,6 +188,14 @@ Theorem C20_break_retries : forall pp pj fl evs x e,
 Proof. exact break_retries_m. Qed.
 Print Assumptions C20_break_retries.
 
+(* supporting: the one-execution model is the manager model with one execution (all fault sequences of length <= 3 over
+   12 fault kinds x 4 initial server states, by computation) *)
+Theorem C20_models_agree_bounded :
+  forallb (fun pj => forallb (models_agree (fst pj) (snd pj)) (sequences 3))
+          [(false, false); (true, false); (true, true); (false, true)] = true.
+Proof. exact models_agree_bounded. Qed.
+Print Assumptions C20_models_agree_bounded.
+
 (* non-vacuity *)
 Example C20_stream_example_benign :
   Forall benign [BreakBefore XServiceUnavailable; NoFault; BreakAfter XUnknown] /\
